@@ -73,6 +73,17 @@ def gen_designator(rng, kind, maxlen=255):
     if kind == "name":
         n = rng.choice([4, 8, 16, 20, 64, 252]) if maxlen >= 255 else rng.choice([k for k in (4, 8, 12, 16, 20) if k <= maxlen])
         s = gen.byte_string(rng, n - 1, "text") + b"\0"
+        if rng.random() < 0.5:
+            # names as SPC writes them (eui. / naa. / iqn. ...), of any length: terminated and padded to a multiple of four, or just
+            # as the caller has them -- the designator carries the bytes it is given
+            lim = maxlen if maxlen < 255 else 252
+            body = rng.choice([b"eui.", b"naa.", b"iqn.", b"EUI.", b"iqn.1993-08.org.debian:01:", b"naa.6001405"]) + bytes(rng.choice(b"0123456789abcdef") for _ in range(rng.choice([1, 2, 3, 5, 12, 16, 17, 32])))
+            body = body[: lim]
+            if rng.random() < 0.5 and len(body) < lim:
+                body += b"\0"
+                while len(body) % 4 and len(body) < lim:
+                    body += b"\0"
+            s = body
         return 8, {"scsi_name_string": s}
     if kind == "pcie":
         return 9, {"pci_express_routing_id": gen.rand_value(rng, 16)}
